@@ -135,6 +135,8 @@ impl KeyKeeperSharedState {
 
             let notify = Arc::new(Notify::new());
             loop {
+                #[cfg(gpa_verif)]
+                crate::verif_hook::delay_point("actor_key_keeper").await;
                 match receiver.recv().await {
                     Some(KeyKeeperAction::SetKey {
                         key: new_key,
